@@ -6,8 +6,10 @@ import (
 	"crypto/cipher"
 	"encoding/base64"
 	"encoding/json"
+	"errors"
 	"fmt"
 	"io"
+	"strings"
 	"sync"
 
 	miscreant "github.com/miscreant/miscreant.go"
@@ -118,8 +120,13 @@ func (c *MiscreantCipher) Marshal(s interface{}) (string, error) {
 // Unmarshal takes the marshaled string, base64-decodes into a byte slice, decrypts the
 // byte slice the passed cipher, and unmarshals the resulting JSON into the struct pointer passed
 func (c *MiscreantCipher) Unmarshal(value string, s interface{}) error {
-	// convert base64 string value to bytes
-	ciphertext, err := base64.RawURLEncoding.DecodeString(value)
+	// convert base64 string value to bytes. Decoding is strict so that a sealed value has
+	// exactly one accepted spelling: the default decoder skips CR/LF and ignores non-zero
+	// trailing bits, which would let modified strings open to the same value.
+	if strings.ContainsAny(value, "\r\n") {
+		return errors.New("invalid character in encoded value")
+	}
+	ciphertext, err := base64.RawURLEncoding.Strict().DecodeString(value)
 	if err != nil {
 		return err
 	}
